@@ -16,5 +16,7 @@ for f in sorted(glob.glob('evidence/C*.json')):
 sys.exit(1 if bad else 0)
 PY
 ev=$?
+deg=$(grep -h "^TIE-DEGRADED" .work/all_*.log | wc -l)
+if [ "$deg" != "0" ]; then echo "REFRESH: WARNING degraded translator tie on the clean tree:"; grep -h "^TIE-DEGRADED" .work/all_*.log | cut -c1-200; fi
 if [ "$bad" != "0" ] || [ "$ev" != "0" ]; then echo "REFRESH: NOT CLEAN"; exit 1; fi
 echo "REFRESH: all checks green on the clean tree; evidence is clean-tree evidence"
